@@ -286,6 +286,11 @@ func init() {
 			}
 			// the race child reads e2e cases: write them out from the c14 inputs
 			ev, v := runRaceChildC14(outdir, seed, secs)
+			n, pv := nilHolderFactoryProbe()
+			v = append(v, pv...)
+			if ev != nil {
+				ev["holder_factory_fault_retrievals"] = n
+			}
 			v = append(v, extraViolations...)
 			extraViolations = nil
 			return ev, v
